@@ -1,5 +1,7 @@
 /-
-Random walk over the extended system (Model/Sched.lean) with an executable mirror of InvS / InvFifo.
+Random walk over the extended system (Model/Sched.lean) with an executable mirror of InvS (the base tiers incl.
+Tier P and Tier L are mirrored in Drive/CtrlInvCheck.lean); `fifo` only selects how batches are drawn (prefixes of the
+pending events, or any sub-multiset in any order) — every check, incl. progress, is evaluated for both.
 Scaffolding for validating candidate invariants; not part of the trusted base.
 -/
 import EkwVerif.Drive.Util
@@ -7,7 +9,7 @@ import EkwVerif.Drive.CtrlInvCheck
 import EkwVerif.Lemmas.SchedInvDefs
 open Lean EkwVerif.Drive EkwVerif.Ctrl EkwVerif.Ctrl.Check
 
-def checksX (j : Job) (cl : Cluster) (cm : Comps) (x : SysX) (fifo : Bool) : List (String × Bool) :=
+def checksX (j : Job) (cl : Cluster) (cm : Comps) (x : SysX) (_fifo : Bool) : List (String × Bool) :=
   let s := x.sys
   let c := s.ctl
   let sc := x.sch
@@ -34,16 +36,7 @@ def checksX (j : Job) (cl : Cluster) (cm : Comps) (x : SysX) (fifo : Bool) : Lis
     ("S.stage_ok", stageOk),
     ("S.stage_phase", imp (s.phase != .assigning) (match sc.stage with | .off => true | .done => true | _ => false)),
     ("S.no_schErr", sc.schErr.isNone)]
-  let fifoChecks : List (String × Bool) := if !fifo then [] else [
-    ("F.suffix", d.tasks.all (fun t => imp (s.env.ran t)
-        ((List.range (j.nOut t + 1)).any (fun m => pendingOuts s t == (List.range (j.nOut t)).drop m &&
-          (List.range m).all (fun k => c.announced ⟨t, k⟩))))),
-    ("F.done_announced", d.tasks.all (fun t => imp (c.doneC t) ((List.range (j.nOut t)).all (fun k => c.announced ⟨t, k⟩)))),
-    ("F.disp_flight_or_done", d.tasks.all (fun t => imp (c.dispatched t == 1) (c.doneC t || d.workers.any (fun w => inFlightB s w t)))),
-    ("F.undisp", j.taskIds.all (fun t => imp (c.dispatched t == 0) (c.computable.contains t || (c.tracked t && !(c.tracker t).isEmpty)))),
-    ("F.tracker_sound", d.tasks.all (fun t => imp (c.tracked t) ((c.tracker t).all (fun ds => (j.inputs t).contains ds && c.announced ds == false)))),
-    ("F.workers_cover", cl.ids.all (fun w => c.idle.contains w || d.tasks.any (fun t => inFlightB s w t)))]
-  base ++ fifoChecks
+  base
 
 def failingX (j : Job) (cl : Cluster) (cm : Comps) (x : SysX) (fifo : Bool) : List String :=
   ((checks j cl x.sys).filter (fun p => !p.2) |>.map (·.1)) ++ ((checksX j cl cm x fifo).filterMap (fun p => if p.2 then none else some p.1))
@@ -81,7 +74,7 @@ def walkX (j : Job) (cl : Cluster) (cm : Comps) (seed : Nat) (n : Nat) (fifo : B
       match st with
       | .base .enter => armed := x.sys.ctl.hasComputable && x.sys.ctl.ongoing.isEmpty
       | .base .endAssign =>
-        if fifo && armed && x'.sys.todo.isEmpty then return (steps, ["P.progress: assign() returned without any assignment"], x')
+        if armed && x'.sys.todo.isEmpty then return (steps, ["P.progress: assign() returned without any assignment"], x')
       | _ => pure ()
       x := x'
       steps := steps + 1
